@@ -250,8 +250,9 @@ type kv struct{ K, V string }
 func parseControl(b []byte) ([]kv, error) {
 	var out []kv
 	for _, ln := range strings.Split(strings.TrimRight(string(b), "\n"), "\n") {
-		if ln == "" {
-			return out, errors.New("control: empty line inside paragraph")
+		// dpkg ends the paragraph at a line that is empty or consists of blanks only
+		if strings.TrimSpace(ln) == "" {
+			return out, fmt.Errorf("control: blank line inside the paragraph (after %d fields)", len(out))
 		}
 		if ln[0] == ' ' || ln[0] == '\t' {
 			if len(out) == 0 {
